@@ -178,18 +178,32 @@
           [(r "start") (r "stop")])
       [(r "start") (r "stop") (r "step")]))))))
 
-(hy-repr-register
-  hy.models.FComponent
-  (fn [x] (+
+(defn _fcomponent-repr [x raw]
+  ; `raw` is true inside a bracket f-string, where literal text isn't
+  ; subject to backslash escapes.
+  (setv form (hy-repr (get x 0)))
+  (+
     "{"
-    (hy-repr (get x 0))
+    ; A leading "{{" would be read as an escaped brace.
+    (if (.startswith form "{") " " "")
+    form
     (if x.conversion f" !{x.conversion}" "")
     (if (> (len x) 1)
-      (+ " :" (if (isinstance (get x 1) hy.models.String)
-        (get x 1)
-        (hy-repr (get x 1))))
+      (+ " :" #* (gfor
+        part (cut x 1 None)
+        (if (isinstance part hy.models.String)
+          (.replace (.replace
+            (if raw (str part) (cut (hy-repr (str part)) 1 -1))
+            "{" "{{")
+            "}" "}}")
+          (if (isinstance part hy.models.FComponent)
+            (_fcomponent-repr part raw)
+            (hy-repr part)))))
       "")
-    "}")))
+    "}"))
+(hy-repr-register
+  hy.models.FComponent
+  (fn [x] (_fcomponent-repr x False)))
 
 (hy-repr-register
   hy.models.FString
@@ -208,7 +222,9 @@
                       (.replace (.replace (str component)
                         "{" "{{")
                         "}" "}}")
-                      (hy-repr component)))
+                      (if (isinstance component hy.models.FComponent)
+                          (_fcomponent-repr component True)
+                          (hy-repr component))))
          "]" fstring.brackets "]")
       (+ (if fstring.is-tstring "t" "f") "\""
          #* (lfor component fstring
